@@ -219,6 +219,11 @@ class MappingStorage:
             # Step 2, GC.  A simple sweep+copy
             new_data = BTrees.OOBTree.OOBTree()
             to_copy = {ZODB.utils.z64}
+            # Only what was garbage at the pack time may go: keep
+            # everything written after it.
+            for oid, tid_data in self._data.items():
+                if tid_data.maxKey() > stop:
+                    to_copy.add(oid)
             while to_copy:
                 oid = to_copy.pop()
                 tid_data = self._data.pop(oid)
